@@ -60,6 +60,7 @@ type Contract struct {
 	Bounded      int
 	NoPanic      bool // claim nopanic obligations
 	Overflow     bool
+	OverflowOnly []string // `overflow only a b`: machine-range obligations only for results assigned to these locals / fields
 	Uses         []string
 	Vars         []LemmaVar // lemma only
 	IsLemma      bool
@@ -473,6 +474,9 @@ func parseContractFile(path string, pkgPath string) ([]*Contract, error) {
 			cur.NoPanic = true
 		case "overflow":
 			cur.Overflow = true
+			if strings.HasPrefix(rest, "only ") {
+				cur.OverflowOnly = strings.Fields(rest[5:])
+			}
 		case "uses":
 			cur.Uses = append(cur.Uses, strings.Fields(rest)...)
 		case "locals":
